@@ -64,7 +64,9 @@ pub fn compare(x: &ExpectedTx, t: &DTx, check_redeemers: bool) -> Vec<Diff> {
                 (None, None) => {}
                 (Some(xd), Some(Ok(td))) => {
                     if *xd != td {
-                        out.push(d(format!("outputs[{i}].datum"), xd.to_json().to_string(), td.to_json().to_string(), false));
+                        // a datum that differs only in integer leaves is a numeric disagreement (C02's subject)
+                        let numeric = xd.differs_in_integers_only(&td);
+                        out.push(d(format!("outputs[{i}].datum"), xd.to_json().to_string(), td.to_json().to_string(), numeric));
                     }
                 }
                 (xd, td) => out.push(d(
